@@ -96,7 +96,7 @@ PROPS = {
         level_note='Trusted as C07.'),
     'C16': dict(coq=['props/C16.vo'], families=[('l2edit', 800, 20000), ('l2match', 800, 20000)], projections=['handlers', 'events'], oracle=oracle_c16,
         technique=LAWS,
-        level_text='Theorems C16_*: get(set n v) n = v, get after remove = None, set keeps the other attributes, lookups are ASCII case-insensitive, for every tag and name. Partial: agreement of the attribute outline with the '
+        level_text='Theorems C16_*: get_attribute returns the value of the first attribute whose name matches ASCII case-insensitively and None iff there is none (every attribute list, duplicates included); set_attribute rewrites that first match in place or appends, keeps order and the other attributes; remove_attribute deletes every match and keeps the order; invalid names are refused and change nothing; get(set n v) n = v; get after remove = None. Partial: agreement of the attribute outline with the '
                    'WHATWG attribute grammar for every chunking is decided by correspondence (all getters, before and after edits) and an independent reference attribute parser (oracle_c16).',
         level_note='Trusted as C07.'),
     'C01': dict(coq=['props/C01.vo'], families=[('l1', 1200, 30000), ('l2match', 600, 15000), ('grp-l1', 400, 8000), ('utf8', 400, 8000), ('enc', 400, 8000)], projections=['out_bytes'], oracle=oracle_c01,
@@ -130,11 +130,13 @@ PROPS = {
         technique='Coq proofs about the pieces of selector matching against an independent Coq reference semantics (spec/CssSem.v); the extracted reference semantics is the oracle for the '
                   'implementation\'s element-handler invocations; extraction-based correspondence run of the AST/compiler/VM/stack model',
         level_text='Theorems (props/C04.v): names (hash or bytes comparison = ASCII case-insensitive equality), all six attribute operators, An+B under wrapping i32 arithmetic, '
-                   'C04_predicate_decides_compound (an instruction predicate decides its compound on every element), C04_vm_stack_is_the_tag_induced_tree and C04_vm_stack_and_counters_follow_the_tree '
-                   '(stack, sibling counters and typed counters = the tree induced by explicit tags, every tag sequence), C04_attribute_bailout_and_recovery_equal_one_phase_execution, '
-                   'C04_ast_denotes_the_selector_list (adding a selector to any AST adds its id exactly at the elements CssSem.selector_matches selects, nothing else changes) and '
-                   'C04_left_to_right_matching_is_css_matching. Partial: the layout of compiled instructions (Compiler::compile_nodes) and the execution of jumps / hereditary jumps against the AST denotation '
-                   'are not yet theorems; end to end the property is decided by running the extracted reference semantics '
+                   'C04_predicate_decides_compound, C04_vm_stack_and_counters_follow_the_tree (stack, sibling and typed counters = the tag-induced tree), '
+                   'C04_attribute_bailout_and_recovery_equal_one_phase_execution, C04_ast_denotes_the_selector_list, C04_left_to_right_matching_is_css_matching, '
+                   'C04_compiled_program_represents_the_ast, C04_stack_items_hold_the_ast_frontier and the end-to-end C04_selector_vm_is_css_matching: for every selector list, every sequence of '
+                   'start/end tags through the controller model and every further start tag, the ids handed to start_matching are exactly the selectors CssSem.selector_matches selects for the new element '
+                   'in the induced tree (hypotheses: no element with 2^31-1 children; :not() arguments that flatten exactly, nth offsets in i32, non-empty class names). '
+                   'Partial: this is a theorem about the model of the controller; selector parsing (cssparser/selectors crates) and the tag stream that reaches the controller are outside it. '
+                   'On the implementation the property is decided by running the extracted reference semantics '
                    '(tree induced by explicit tags, right-to-left matching over the ancestor chain) on the model\'s tag stream and comparing with the handler invocations of the real rewriter, '
                    'for selectors from the full grammar, plus the correspondence run of the VM model. Known finding NotCompoundArg.',
         level_note='Trusted as C01 plus: the pairing of selector strings with their structure in tools/gen.py (cssparser / selectors crate parsing is not modelled), spec/CssSem.v as the meaning of "CSS semantics".'),
@@ -143,7 +145,7 @@ PROPS = {
                   'extracted reference scope model (spec/CssSem.v scope_events) as oracle for the implementation\'s handler invocation log; extraction-based correspondence run',
         level_text='Theorems C05_handler_counts_track_open_matched_elements and C05_scoped_handler_active_iff_matched_element_open: for every selector set, handler scripts, failure point, configuration, document and chunking, '
                    'in every state reached through successful writes the activation count of each comment/text handler = its initial count + the number of (open element, matched selector) pairs that own it, so a selector-scoped '
-                   'handler is active exactly while a matched element is on the open-element stack. Partial: that the stack is the tree induced by explicit tags (the C04 tie), exactly-once end-tag handlers, registration order and the '
+                   'handler is active exactly while a matched element is on the open-element stack. C05_end_tag_pops_exactly_the_closed_elements / C05_end_tag_stops_exactly_the_closed_elements: on every stack that follows the tag-induced tree (every reachable one, C04) an end tag deactivates exactly the open elements it closes in the tree, each once, and a stray end tag nothing; with C04_stack_items_hold_the_ast_frontier each open element\'s matched set is its CSS match set. Partial: that the end-tag handler then runs at that end tag token, registration order and the '
                    'end handler are decided by comparing the complete handler-invocation sequence of the real rewriter with the extracted reference scope model (text chunks collapsed per node; end-tag handlers of one end tag and '
                    'end handlers compared as sets) and by the correspondence run.',
         level_note='Trusted as C04.'),
